@@ -125,6 +125,14 @@ def check_all(trace, props=("C07", "C08", "C09", "C11", "C12", "C13", "C17")):
             fails[p].append({"leg": len(trace["legs"]), "msg": "run raised %s: %s" % (trace["error"]["exc"],
                                                                                      trace["error"]["msg"])})
         return fails, stats
+    if "C12" in props and st.children:
+        # the randomly generated initial molecules
+        for root in st.roots:
+            if root in st.children:
+                stats["c12_objects"] += 1
+                m = check_composite(st, root, Fr(0), 0)
+                if m:
+                    fails["C12"].append({"leg": 0, "msg": "initial composite object %r: %s" % (root, m)})
     now = Fr(0)
     speed0 = None
     started = False
@@ -367,18 +375,19 @@ def check_composite(st, root, T, ncommits):
             s = sum(w * fr(v[d]) for w, v in zip(ws, kv) if v is not None)
             if abs(s - fr(ru["vel"][d])) > Fr(ncommits + 8, 2 ** 44) * max(Fr(1), abs(s)):
                 return "root velocity %r != weighted sum %r in direction %d" % (b2f(ru["vel"][d]), float(s), d)
-    # position: barycentre of nearest images at time T
+    # position: barycentre of the point masses (nearest images of each other, unwrapped around the first one)
     rp = st.pos_at(ru, T)
+    k0 = st.pos_at(st.units[kids[0]], T)
     for d in range(st.dim):
         L = st.L[d]
-        acc = Fr(0)
+        bary = k0[d]
         for w, k in zip(ws, kids):
             kp = st.pos_at(st.units[k], T)[d]
-            sep = (kp - rp[d] + L / 2) % L - L / 2
-            acc += w * sep
+            bary += w * ((kp - k0[d] + L / 2) % L - L / 2)
         tol = Fr(ncommits + 16, 2 ** 40) * L
-        if abs(acc) > tol:
-            return "root position off the barycentre by %.3e in direction %d" % (float(acc), d)
+        off = circ_dist(bary, rp[d], L)
+        if off > tol:
+            return "root position off the barycentre by %.3e in direction %d" % (float(off), d)
     return None
 
 
